@@ -671,18 +671,19 @@ impl LatestBlockFilterHashes {
             );
             return Err(StatusCode::Ignore.with_context(errmsg));
         }
+        // Check the start number first: the end number is calculated from it.
+        if start_number > last_proved_number {
+            let errmsg = format!(
+                "start number ({}) is greater than the proved number ({})",
+                start_number, last_proved_number
+            );
+            return Err(StatusCode::Ignore.with_context(errmsg));
+        }
         let mut end_number = start_number + block_filter_hashes.len() as BlockNumber - 1;
         if finalized_check_point_number >= end_number {
             let errmsg = format!(
                 "finalized check point ({}) is not less than end number ({})",
                 finalized_check_point_number, end_number,
-            );
-            return Err(StatusCode::Ignore.with_context(errmsg));
-        }
-        if start_number > last_proved_number {
-            let errmsg = format!(
-                "start number ({}) is greater than the proved number ({})",
-                start_number, last_proved_number
             );
             return Err(StatusCode::Ignore.with_context(errmsg));
         }
